@@ -449,6 +449,10 @@ def run_c07(ctx):
             vs.append({'t': 'insert', 'at': at, 'k': k, 'pid': rnd_py.choice(pids)})
         for pid in pids:
             vs.append({'t': 'corrupt', 'pid': pid, 'mode': rnd_py.choice(['dropall', 'dropsome', 'garbage', 'tei', 'badaf', 'badaf'])})
+        if n >= 4 and len(scs) % (40 if quick else 10) == 7:
+            # very long gaps between two packets of every PID: more null packets than any 16-bit packet count holds, once and twice over
+            for cnt in (70000, 140000):
+                vs.append({'t': 'insert', 'at': rnd_py.randrange(1, n), 'k': 'null', 'pid': pids[0], 'n': cnt})
         s['variants'] = vs
         s['kind'] = 'merge'
         scs.append(s)
